@@ -420,6 +420,7 @@ def make_numpy(it):
         "vstack": nat(lambda it, xs, **k: Rows([_arr(x) for x in it.iterate(xs)]), name="vstack"),
         "errstate": nat(errstate, name="errstate"),
         "setdiff1d": nat(np_setdiff1d, name="setdiff1d"),
+        "count_nonzero": nat(lambda it, x, **k: SV(__import__("pyvc.arrays", fromlist=["_count"])._count(it, _arr(x).space, _mask_and(_arr(x).mask, truth_z(_arr(x).e)))), name="count_nonzero"),
         "finfo": nat(lambda it, t=float, **k: __import__("numpy").finfo(float), name="finfo"),
         "copy": nat(lambda it, x: it.call(it.stub_modules["copy"].get("copy"), [x], {}), name="copy"),
         "nan": float("nan"), "inf": float("inf"), "pi": pi(), "newaxis": None, "e": math.e,
